@@ -122,6 +122,14 @@ impl EntropyNormalizer {
         let mut normalized = vec![0u32; frequencies.len()];
         let mut remaining = target_total;
         
+        // Every present symbol needs at least one slot, otherwise it cannot be coded at all.
+        // `pending` counts the present symbols that have not been served yet; each allocation
+        // leaves one slot for every one of them.
+        let mut pending = frequencies.iter().filter(|&&f| f > 0).count() as u32;
+        if pending > target_total {
+            return Err(ZiporaError::invalid_data("More symbols than table slots"));
+        }
+        
         // First pass: allocate based on entropy contribution
         if self.adaptive_scaling && entropy > self.entropy_threshold {
             for (i, &freq) in frequencies.iter().enumerate() {
@@ -134,8 +142,9 @@ impl EntropyNormalizer {
                         ((freq as f64 * target_total as f64) / total_freq).round() as u32
                     };
                     
-                    normalized[i] = allocation.max(1).min(remaining);
-                    remaining = remaining.saturating_sub(normalized[i]);
+                    pending -= 1;
+                    normalized[i] = allocation.max(1).min(remaining - pending);
+                    remaining -= normalized[i];
                 }
             }
         } else {
@@ -143,8 +152,9 @@ impl EntropyNormalizer {
             for (i, &freq) in frequencies.iter().enumerate() {
                 if freq > 0 {
                     let allocation = ((freq as f64 * target_total as f64) / total_freq).round() as u32;
-                    normalized[i] = allocation.max(1).min(remaining);
-                    remaining = remaining.saturating_sub(normalized[i]);
+                    pending -= 1;
+                    normalized[i] = allocation.max(1).min(remaining - pending);
+                    remaining -= normalized[i];
                 }
             }
         }
@@ -491,11 +501,22 @@ impl FseTable {
         let mut normalized_freqs = vec![0u32; max_symbol as usize + 1];
         let mut remaining = table_size as u32;
         
+        // Every present symbol needs at least one slot: each allocation leaves one slot for
+        // every present symbol that has not been served yet (`pending`).
+        let mut pending = frequencies.iter()
+            .take(max_symbol as usize + 1)
+            .filter(|&&f| f > 0)
+            .count() as u32;
+        if pending > remaining {
+            return Err(ZiporaError::invalid_data("More symbols than table slots"));
+        }
+        
         for i in 0..=max_symbol as usize {
             if frequencies[i] > 0 {
                 let freq = ((frequencies[i] as u64 * table_size as u64) / total_freq) as u32;
-                normalized_freqs[i] = freq.max(1).min(remaining);
-                remaining = remaining.saturating_sub(normalized_freqs[i]);
+                pending -= 1;
+                normalized_freqs[i] = freq.max(1).min(remaining - pending);
+                remaining -= normalized_freqs[i];
             }
         }
         
